@@ -275,11 +275,11 @@ BY_NAME = {n: (c, f) for n, c, f in VALUES}
 
 
 def fresh(name):
-    return BY_NAME[name][1]()
+    return BY_NAME[name.rstrip("=")][1]()
 
 
 def vclass(name):
-    return BY_NAME[name][0]
+    return BY_NAME[name.rstrip("=")][0]
 
 
 def is_nan_like(v):
